@@ -271,7 +271,8 @@ def tree_pairs(ctx, rng, k):
             ftoks = gen.rand_tokens(rng, maxtok=3, depth=1, alpha='abA.')
             fpat = gen.ser(ftoks) + rng.choice(['', '|*.d', '|!a'])
             wfl = WM.RECURSIVE | WM.EXTMATCH | (WM.HIDDEN if rng.random() < 0.5 else 0) | (WM.SYMLINKS if rng.random() < 0.3 and not tr.has_dir_cycle() else 0) | \
-                (WM.FILEPATHNAME | WM.GLOBSTAR if rng.random() < 0.3 else 0) | (WM.IGNORECASE if rng.random() < 0.3 else 0)
+                (WM.FILEPATHNAME | WM.GLOBSTAR if rng.random() < 0.3 else 0) | (WM.IGNORECASE if rng.random() < 0.3 else 0) | \
+                (WM.DIRPATHNAME if rng.random() < 0.4 else 0) | (WM.MATCHBASE if rng.random() < 0.2 else 0) | (WM.BRACE if rng.random() < 0.2 else 0)
             wit = {'api': 'WcMatch', 'pattern': fpat, 'flags': wfl, 'tree': spec}
             pair(ctx, 'WcMatch on a tree', wit, lambda: WM.WcMatch(root, fpat, 'b', wfl).match(),
                  lambda: WM.WcMatch(broot, enc(fpat), b'b', wfl).match())
